@@ -1519,9 +1519,18 @@ func genC18(g *G, sc *Scenario, tier string) {
 	}
 	chain = append(chain, "main")
 	sc.Datasets = append(append([]string{}, chain...), "out")
+	if g.P(0.15) {
+		// a hierarchy inside the dependency dataset: the first hop of the path stays in it (dep entities refer to
+		// dep entities)
+		chain = append([]string{"dep"}, chain...)
+		hops++
+	}
 	// ids per dataset are disjoint: dep d*, linkN lN_*, main m*, second dependency x*
 	ids := map[string][]string{}
 	for _, ds := range chain {
+		if _, done := ids[ds]; done {
+			continue
+		}
 		stem := ds[:1]
 		if ds != "dep" && ds != "main" {
 			stem = "l" + ds[4:] + "_"
@@ -1546,7 +1555,12 @@ func genC18(g *G, sc *Scenario, tier string) {
 		}
 	}
 	deps := []any{map[string]any{"dataset": "dep", "joins": joins}}
-	writable := append([]string{}, chain...)
+	var writable []string
+	for _, ds := range chain {
+		if len(writable) == 0 || writable[len(writable)-1] != ds {
+			writable = append(writable, ds)
+		}
+	}
 	endpoints := []string{"dep", "main"} // datasets a client writes to while a run is under way
 	if g.P(0.6) {
 		// a second dependency, one hop from the main dataset
